@@ -191,6 +191,13 @@ def run_models(task):
             model, tags = fixed[it], ["fixed_witness_model"]
         elif task.get("pairs") is not None:
             model, tags = gen.gen_pair_model(rnd, task["pairs"] + it)
+        elif gopts.get("source") == "large_constraints_small_search":
+            # constraints of arity up to 14 over 8-40 variables, all but 2-5 shared domains fixed to a planted assignment:
+            # the brute-force oracles stay affordable while the propagators see long argument lists
+            from framework.props import bigrun
+
+            big, plant = bigrun.gen_big(rnd, {"max_vars": gopts.get("max_vars", 18)})
+            model, tags = bigrun.restrict(big, plant, rnd, rnd.randint(2, 5)), ["large_constraints_small_search"]
         else:
             model, tags = gen.gen_model(rnd, gopts)
         if O.model_points(model) > max_points:
